@@ -7,8 +7,10 @@ import (
 	"go/token"
 	"go/types"
 	"os"
+	"sort"
 	"strconv"
 	"strings"
+	"time"
 
 	"golang.org/x/tools/go/ssa"
 )
@@ -153,7 +155,7 @@ type assignEntry struct {
 	prefix string
 	ref    *Term
 	text   string
-	whole  bool // prefix names a whole type: match the key itself or any of its fields
+	whole  bool  // prefix names a whole type: match the key itself or any of its fields
 	off    *Term // slice elements: only [off, off+n) of the backing array may change
 	n      *Term
 	only   []string // exact heap keys (ghost streams: only the mutable components)
@@ -339,6 +341,10 @@ func (e *Exec) frameCheckCond(st *State, fr *Frame, cond *Term, l Loc, pos token
 	if e.discovery > 0 || e.specMode > 0 || e.topSpec == nil || !e.topSpec.hasContract() || e.topSpec.Lemma || cond == False {
 		return
 	}
+	if e.topSpec.NoFrame {
+		e.note("FRAME NOT CHECKED for " + e.topSpec.Target + " (declared noframe: only its other clauses are verified; nothing may call it by contract)")
+		return
+	}
 	ref := l.Idx[0]
 	if ref.Op == "ref" {
 		return
@@ -355,7 +361,54 @@ func (e *Exec) frameCheckCond(st *State, fr *Frame, cond *Term, l Loc, pos token
 			alts = append(alts, Eq(ref, a.ref))
 		}
 	}
+	if os.Getenv("GOVC_DEBUG") == "8" && e.discovery == 0 {
+		fmt.Fprintf(os.Stderr, "FRAMECHECK %s key=%s ref=%s at %s\n", e.curFn, l.Key, showTerm(ref, 4), fnName(fr.fn)+relPos(fr.fn, pos))
+	}
 	e.oblige(st, fr, "frame", pos, Implies(cond, Or(alts...)))
+}
+
+// frameCheckAppend: append growing in place writes the spare capacity of the array arr. Allowed when the array itself
+// may be written (allocated during the call, or listed), or when the slice was read from a heap variable or field
+// that existed before the call and may be assigned: whoever may assign x.f is taken to own the spare capacity of the
+// array x.f points to (an assumption, noted). A slice held only in locals or in objects made during the call gets no
+// such exemption: its array may be the caller's.
+func (e *Exec) frameCheckAppend(st *State, fr *Frame, arr Loc, owner *Loc, pos token.Pos) {
+	if e.discovery > 0 || e.specMode > 0 || e.topSpec == nil || !e.topSpec.hasContract() || e.topSpec.Lemma || e.topSpec.NoFrame {
+		return
+	}
+	alts := func(l Loc) ([]*Term, bool) {
+		var out []*Term
+		for _, a := range e.topAssigns {
+			if a.covers(l.Key) {
+				if a.ref == nil {
+					return nil, true
+				}
+				out = append(out, Eq(l.Idx[0], a.ref))
+			}
+		}
+		return out, false
+	}
+	ref := arr.Idx[0]
+	if ref.Op == "ref" {
+		return
+	}
+	goal, any := alts(arr)
+	if any {
+		return
+	}
+	goal = append(goal, IntLe(e.topEntry, ref))
+	if owner != nil {
+		oa, oany := alts(*owner)
+		own := Or(oa...)
+		if oany {
+			own = True
+		}
+		if own != False {
+			e.note("ASSUMED: the spare capacity beyond len() of a slice held in a variable or field that existed before the call is owned by whoever may assign that variable or field (x.f = append(x.f, ...) growing in place is frame-checked against x.f)")
+		}
+		goal = append(goal, And(Not(IntLe(e.topEntry, owner.Idx[0])), own))
+	}
+	e.oblige(st, fr, "frame", pos, Or(goal...))
 }
 
 // ---------- contract summaries at call sites ----------
@@ -391,6 +444,9 @@ func (e *Exec) havocAssign(st *State, a assignEntry) {
 }
 
 func (e *Exec) callContract(st *State, fr *Frame, sp *FnSpec, fn *ssa.Function, args []Value, pos token.Pos) []Outcome {
+	if sp.NoFrame {
+		panic(unsupported("call by contract to a function whose frame is not checked: " + sp.Target))
+	}
 	if sp.Trusted {
 		e.note("trusted contract: " + sp.Target)
 	} else {
@@ -590,7 +646,12 @@ func (e *Exec) VerifyFunction(sp *FnSpec, prop string) (err error) {
 				err = u
 				return
 			}
-			panic(x)
+			if os.Getenv("GOVC_PANIC") != "" {
+				panic(x)
+			}
+			// an internal error of the generator on this function's code: the function is undecided, which fails
+			// closed like any construct outside the subset (never a crash of the whole check)
+			err = unsupported(fmt.Sprintf("internal error of the condition generator: %v", x))
 		}
 	}()
 	e.curFn = fnName(fn)
@@ -598,6 +659,13 @@ func (e *Exec) VerifyFunction(sp *FnSpec, prop string) (err error) {
 		e.curLabels = []string{prop}
 	}
 	e.paths = 0
+	e.specForks = 0
+	e.genStart = time.Now()
+	if os.Getenv("GOVC_PATHSTAT") != "" {
+		defer func() {
+			fmt.Fprintf(os.Stderr, "PATHSTAT %s paths=%d specforks=%d\n", fnName(fn), e.paths, e.specForks)
+		}()
+	}
 	if e.pruner != nil {
 		e.pruneQueries += e.pruner.queries
 		e.pruneCuts += e.pruner.pruned
@@ -605,6 +673,7 @@ func (e *Exec) VerifyFunction(sp *FnSpec, prop string) (err error) {
 		e.pruner = nil
 	}
 	e.topSpec = sp
+	e.atCallSeen = nil
 	e.inlineAll = sp.Bounded
 	if sp.Bounded > 0 {
 		e.note(fmt.Sprintf("BOUNDED: %s is checked with callees inlined and every loop unrolled at most %d times (a stand-in, not counted as an unbounded proof)", fnName(fn), sp.Bounded))
@@ -627,6 +696,9 @@ func (e *Exec) VerifyFunction(sp *FnSpec, prop string) (err error) {
 	}
 	if len(fn.FreeVars) > 0 {
 		return unsupported("closures cannot be verified stand-alone: " + e.curFn)
+	}
+	for callee := range sp.CountCalls {
+		e.ghSet(st, "calls."+callee, BV(64), IntConst(0), BVConst(0, 64)) // ghost call counters start at zero
 	}
 	e.topEntry = st.Top()
 	fr.entryTop = st.Top()
@@ -663,7 +735,7 @@ func (e *Exec) VerifyFunction(sp *FnSpec, prop string) (err error) {
 		}
 		nret++
 		env := e.resultEnv(o.st, fr, o.results)
-		if sp.hasContract() && !sp.Lemma {
+		if sp.hasContract() && !sp.Lemma && !sp.NoFrame {
 			// ghost stream cells written during the call must belong to streams named in the assigns clause
 			seen := map[string]bool{}
 			for _, g := range o.st.gw[len(fr.entry.gw):] {
@@ -720,6 +792,20 @@ func (e *Exec) VerifyFunction(sp *FnSpec, prop string) (err error) {
 			}
 			t := e.evalSpec(o.st, fr, c, env, true)
 			e.obligeNamed(o.st, fmt.Sprintf("%s#ensures.%s", e.curFn, strings.Join(c.Labels, ",")), "ensures", c.Labels, sp.Pos, t)
+		}
+	}
+	// a call-site clause whose callee is never called says nothing: the code no longer has the shape the contract was
+	// written for (e.g. the transport write moved into another helper)
+	{
+		var names []string
+		for callee := range sp.AtCall {
+			if !e.atCallSeen[callee] {
+				names = append(names, callee)
+			}
+		}
+		sort.Strings(names)
+		for _, callee := range names {
+			e.obligeNamed(st, e.curFn+"#at-call."+callee+".never-called", "vacuity", nil, sp.Pos, False)
 		}
 	}
 	if len(outs) == 0 && (sp.Lemma || len(sp.Ensures) > 0) {
@@ -896,14 +982,41 @@ func (e *Exec) chanRecv(st *State, fr *Frame, x *ssa.UnOp, ch Value) Value {
 }
 
 // sliceEmbeddedArray: c.field[:] where field is an array stored by value inside an object. The slice is modelled as a
-// detached copy: reads see the current contents, writes through the slice are NOT reflected in the field (noted).
+// view of a copy: reads see the current contents; copy() into it is written back by the copy model; any other use that
+// could write through it is outside the subset.
 func (e *Exec) sliceEmbeddedArray(st *State, fr *Frame, a *PtrV, x *ssa.Slice, get func(ssa.Value, *Term) *Term) Value {
 	l := e.locOf(a)
 	at, ok := l.T.Underlying().(*types.Array)
 	if !ok {
 		panic(unsupported("slicing a non-array object"))
 	}
-	e.note("ASSUMED: writes through a slice of an array field (" + l.Key + ") are not tracked back into the field")
+	// the view is only sound for uses that cannot write through it unnoticed: source or destination of copy()
+	// (a destination is written back into the field by the copy model) and re-slicing/indexing for reads
+	if refs := x.Referrers(); refs != nil {
+		for _, r := range *refs {
+			ok := false
+			switch u := r.(type) {
+			case *ssa.Call:
+				if b, isB := u.Call.Value.(*ssa.Builtin); isB && (b.Name() == "copy" || b.Name() == "len") {
+					ok = true
+				}
+			case *ssa.DebugRef:
+				ok = true
+			case *ssa.IndexAddr:
+				ok = true
+				if rr := u.Referrers(); rr != nil {
+					for _, w := range *rr {
+						if s, isS := w.(*ssa.Store); isS && s.Addr == u {
+							ok = false
+						}
+					}
+				}
+			}
+			if !ok && e.specMode == 0 {
+				panic(unsupported("a slice of the array field " + l.Key + " escapes (only copy() and indexed reads of such a slice are modelled)"))
+			}
+		}
+	}
 	av := st.LoadLoc(l).(*ArrV)
 	n := BVConst(uint64(at.Len()), 64)
 	lo, hi := get(x.Low, BVConst(0, 64)), get(x.High, n)
